@@ -676,6 +676,45 @@ def _structured(chk, func, names, pid, hy, fs, w, values_only, i):
                                                           choice, z3.Not(P["isiterabletype"](c)))))
 
 
+def slotnames_obligation(chk):
+    """serdes._slotnames(cls): the slot names the class *itself* declares, as a tuple, in declaration order - a single string is
+    one name, a class without its own __slots__ declares none (inherited declarations are its bases' business).  Ground, on the
+    real function; the slots expression contract above takes this function by contract."""
+    from typelib import serdes
+
+    class A:
+        __slots__ = ("a", "b")
+
+    class B(A):
+        __slots__ = ["c"]
+
+    class C(B):
+        pass
+
+    class D:
+        __slots__ = "value"
+
+    class E:
+        __slots__ = {"x": "doc of x", "y": "doc of y"}
+
+    class F:
+        __slots__ = ()
+
+    class P:
+        pass
+    want = {A: ("a", "b"), B: ("c",), C: (), D: ("value",), E: ("x", "y"), F: (), P: (), int: (), object: ()}
+    bad = []
+    for c, w in want.items():
+        try:
+            got = serdes._slotnames(c)
+        except Exception as e:
+            got = f"raised {type(e).__name__}"
+        if got != w or not isinstance(got, tuple):
+            bad.append(f"_slotnames({c.__name__}) = {got!r}, the class declares {w!r}")
+    chk.add(Ob(f"{MOD}._slotnames", "the-slot-names-the-class-itself-declares-as-a-tuple-in-order", "ground", [], z3.BoolVal(not bad), {"bad": bad, "classes": len(want)}))
+
+
 def obligations(chk):
     run(chk, "iteritems", values_only=False)
     run(chk, "itervalues", values_only=True)
+    slotnames_obligation(chk)
